@@ -31,7 +31,8 @@ RULE = ("case = (1 standalone indicator or 2-5 members in a Hexital, base or col
         "equal; look-back depth equal; distinct candles read <= +2; chunk work <= 5 x single + 40. Candle-manager code is measured and "
         "reported but not decided (collapse re-walks the bucket list by design; the property is about indicator code). "
         "non-trivial: n0 beyond warm-up of every component and >= 1 _calculate_reading entry per measured append. distinct: case digest.")
-ASSUMPTIONS = ["work = interpreter events (function entries, executed lines) inside hexital/ minus candle-manager files; no wall clock",
+ASSUMPTIONS = ["candle-manager code is decided on the base timeframe only (there it has nothing to re-walk); on a collapsing timeframe collapse re-walks the bucket list by design",
+               "work = interpreter events (function entries, executed lines) inside hexital/ minus candle-manager files; no wall clock",
                "growth beyond the largest history built (8-16 n0) cannot be excluded"]
 TAIL = 60
 MEASURED = 8
@@ -79,12 +80,26 @@ def gen_case(rng, tier, idx):
     tfkind = rng.choice(["base", "base", "collapse"])
     per_bucket = rng.choice([1, 2, 3]) if tfkind == "collapse" else 1
     pre_op = rng.choice(["none", "none", "none", "calc_index_0", "calc_index_mid", "recalculate", "purge_calculate"])
-    return {"members": members, "pre_op": pre_op, "hexital": k > 1 or rng.random() < 0.2, "tfkind": tfkind, "per_bucket": per_bucket, "ha": rng.random() < 0.15, "family": family,
+    return {"members": members, "pre_op": pre_op, "hexital": k > 1 or rng.random() < 0.2, "tfkind": tfkind, "per_bucket": per_bucket, "ha": rng.random() < 0.25, "family": family,
             "seed": rng.randint(0, 10**9), "sizes": [1, 2, 4, 8] + ([16] if tier == "thorough" else [])}
 
 
 def build_rows(case, n_buckets):
-    """prefix (seeded by length) + common tail; all timestamps on a common grid so bucket phases coincide."""
+    """Histories of every size are SUFFIXES of one long stream (built for the largest size), followed by the common tail and the
+    measured candles: the recent past coincides for all sizes, so data-dependent branches (a trend direction, a band flip, a sparse
+    reading) coincide too and only the amount of older history differs. All timestamps sit on one grid so bucket phases coincide."""
+    big = max(case["sizes"]) * n0_of(case)
+    rows_all, hist_all = build_rows_full(case, big)
+    want = n_buckets * case["per_bucket"]
+    cut = max(0, hist_all - want)
+    return rows_all[cut:], hist_all - cut
+
+
+def n0_of(case):
+    return max(60, 3 * max(configs.lookback(m) for m in case["members"])) + TAIL
+
+
+def build_rows_full(case, n_buckets):
     pb = case["per_bucket"]
     step = 60
     tail_rows = (TAIL + MEASURED) * pb
@@ -178,12 +193,22 @@ def run_case(case):
         for what in ("calls", "lines"):
             wa, wb = a[what]["indicator"] + a[what]["hexital"], b[what]["indicator"] + b[what]["hexital"]
             ratio_max = max(ratio_max, wb / max(1, wa))
-            if wb > 1.25 * wa + 40:
+            mid = per_size[case["sizes"][1]]["singles"][k]
+            wm = mid[what]["indicator"] + mid[what]["hexital"]
+            # growth, not a constant data-dependent difference: beyond the slack w.r.t. the shortest history AND still growing after 2*n0
+            if wb > 1.25 * wa + 40 and wb > 1.15 * wm + 20:
                 viol.append({"monitor": "work-meter", "sig": f"C07|work-grows|{what}|{comp if tag != 'Hexital' else 'Hexital'}",
                              "detail": f"append #{k + 1}: {what} executed in indicator code {wa} at history {lo['history']} but {wb} at history {hi['history']} (x{case['sizes'][-1]}); per size: {[(m_, per_size[m_]['singles'][k][what]['indicator']) for m_ in case['sizes']]}"})
                 break
         if viol:
             break
+        if case["tfkind"] == "base":
+            # on the base timeframe the candle manager has nothing to re-walk: its work (append, conversion resume, trim) is O(1) too
+            ma, mb, mm = a["lines"]["manager"], b["lines"]["manager"], per_size[case["sizes"][1]]["singles"][k]["lines"]["manager"]
+            if mb > 1.25 * ma + 40 and mb > 1.15 * mm + 20:
+                viol.append({"monitor": "work-meter", "sig": "C07|manager-work-grows-on-base-timeframe|" + ("HA" if case["ha"] else "plain"),
+                             "detail": f"append #{k + 1} on the base timeframe: lines executed in candle-manager code {ma} at history {lo['history']} but {mb} at history {hi['history']}"})
+                break
         if a["calc"] != b["calc"]:
             diff = {q: (a["calc"].get(q, 0), b["calc"].get(q, 0)) for q in set(a["calc"]) | set(b["calc"]) if a["calc"].get(q, 0) != b["calc"].get(q, 0)}
             # data-dependent branches may add or drop a helper computation; only growth with n is a violation
@@ -192,7 +217,8 @@ def run_case(case):
                              "detail": f"append #{k + 1}: _calculate_reading entries differ between history {lo['history']} and {hi['history']}: {short(diff, 400)}"})
                 break
             stats["calc_count_noise"] = stats.get("calc_count_noise", 0) + 1
-        if b["depth"] > a["depth"] + 1 or b["touched"] > a["touched"] + 2:
+        # a data-dependent branch may or may not read its (bounded) window; only a look-back beyond the configured windows is growth
+        if b["depth"] > max(a["depth"] + 1, lb + 2) or b["touched"] > max(a["touched"] + 2, lb + 3):
             viol.append({"monitor": "candle-access-tracer", "sig": f"C07|lookback-grows|{comp if tag != 'Hexital' else 'Hexital'}",
                          "detail": f"append #{k + 1}: look-back depth {a['depth']} -> {b['depth']}, distinct candles read by one computation {a['touched']} -> {b['touched']} between history {lo['history']} and {hi['history']}"})
             break
